@@ -237,8 +237,10 @@ class GFunction:
             if required_curves > len(height_values):
                 kind = curves_by_kind[len(height_values)]
 
-        # if the interpolation table is not yet know, build it
-        if len(self.interpolation_table) == 0:
+        # if the interpolation table is not yet know, build it; it is rebuilt when the extrapolation setting it was
+        # built with differs from the one this request needs, so that a result does not depend on earlier requests
+        if len(self.interpolation_table) == 0 or self.interpolation_table.get("fill_value") != fill_value:
+            self.interpolation_table = {"fill_value": fill_value}
             # create an interpolation for the g-function which takes the height
             # (or equivalent height) as an input the g-function needs to be
             # interpolated at each point in dimensionless time
